@@ -386,9 +386,10 @@ func (h *sentPacketHandler) ReceivedAck(ack *wire.AckFrame, encLevel protocol.En
 		}
 	}
 
-	// Servers complete address validation when a protected packet is received.
+	// The server has completed address validation once it acknowledges a Handshake packet.
+	// An ACK in a 1-RTT packet doesn't show that: with 0-RTT, it can arrive before we sent any Handshake packet.
 	if h.perspective == protocol.PerspectiveClient && !h.peerCompletedAddressValidation &&
-		(encLevel == protocol.EncryptionHandshake || encLevel == protocol.Encryption1RTT) {
+		encLevel == protocol.EncryptionHandshake {
 		h.peerCompletedAddressValidation = true
 		h.logger.Debugf("Peer doesn't await address validation any longer.")
 		// Make sure that the timer is reset, even if this ACK doesn't acknowledge any (ack-eliciting) packets.
